@@ -273,3 +273,56 @@ package bfe_spdy
 //@   ensures[no_frame_of_an_ended_stream_stays_queued] !has(ws.sq, id)
 //@   ensures[other_streams_keep_their_queues] forall k uint32 :: k != id ==> has(ws.sq, k) == old(has(ws.sq, k)) && ws.sq[k] == old(ws.sq[k])
 
+
+// ---- C39: frame boundaries and allocation when reading SPDY frames ----
+// A control frame is accepted only if its length field is exactly what the reader consumes for it
+// (RST_STREAM 8, PING 4, GOAWAY 8, WINDOW_UPDATE 8 octets, SETTINGS 4 + 8 per entry): otherwise the next
+// frame header would be read from the middle of this frame.
+
+//@ func (*RstStreamFrame).read
+//@   props C39
+//@   requires frame != nil && f != nil && f.r != nil
+//@   modifies *
+//@   ensures[only_a_frame_of_exactly_8_octets_is_accepted] result0 == nil ==> h.length == 8
+
+//@ func (*PingFrame).read
+//@   props C39
+//@   requires frame != nil && f != nil && f.r != nil
+//@   modifies *
+//@   ensures[only_a_frame_of_exactly_4_octets_is_accepted] result0 == nil ==> h.length == 4
+
+//@ func (*GoAwayFrame).read
+//@   props C39
+//@   requires frame != nil && f != nil && f.r != nil
+//@   modifies *
+//@   ensures[only_a_frame_of_exactly_8_octets_is_accepted] result0 == nil ==> h.length == 8
+
+//@ func (*WindowUpdateFrame).read
+//@   props C39
+//@   requires frame != nil && f != nil && f.r != nil
+//@   modifies *
+//@   ensures[only_a_frame_of_exactly_8_octets_is_accepted] result0 == nil ==> h.length == 8
+
+//@ func (*SettingsFrame).read
+//@   props C39
+//@   nopanic index,makeslice
+//@   requires frame != nil && f != nil && f.r != nil
+//@   modifies *
+//@   ensures[only_a_frame_whose_length_matches_its_entry_count_is_accepted] result0 == nil ==> int(h.length) == 4 + 8 * len(frame.FlagIdValues)
+//@   ensures[the_entry_table_is_bounded] result0 == nil ==> len(frame.FlagIdValues) <= MaxNumSettings
+
+//@ func (*Framer).parseDataFrame
+//@   props C39
+//@   nopanic index,makeslice,slice
+//@   requires f != nil && f.r != nil
+//@   modifies *
+//@   ensures[a_data_frame_holds_at_most_what_its_length_field_says] result1 == nil ==> result0 != nil && len(result0.Data) <= MaxDataLength && result0.StreamId != 0
+
+//@ func parseHeaderValueBlock
+//@   props C39
+//@   nopanic makeslice,index
+//@   requires r != nil
+//@   modifies *
+//@   assert[a_header_name_is_allocated_only_within_the_size_of_a_frame] at "nameBytes := make([]byte, length)" :: length <= MaxDataLength
+//@   assert[a_header_value_is_allocated_only_within_the_size_of_a_frame] at "value := make([]byte, length)" :: length <= MaxDataLength
+//@   assert[the_header_table_is_allocated_for_a_bounded_number_of_fields] at "h := make(http.Header, int(numHeaders))" :: numHeaders <= MaxNumHeaders
